@@ -628,6 +628,9 @@ func interpretPDF(data []byte) *displayList {
 		case "Do":
 			name, _ := op.Operands[0].(pdfread.Name)
 			in.paintXObject(name, fmtOp(op))
+		case "BT", "ET", "Tf", "Tm", "Td", "TD", "T*", "Tr", "Tc", "Tw", "Tz", "TL", "Ts", "Tj", "TJ", "'", "\"":
+			// text objects and text state: not part of the compared display list (the graphics state
+			// operators between BT and ET are interpreted as everywhere else)
 		default:
 			dl.problem("pdf-unexpected-operator", "operator %q (%s) in the content of a path-only drawing", op.Operator, pdfread.Operators[op.Operator].Category)
 		}
